@@ -138,7 +138,7 @@ def families : List Family := [
     let x : Inline := if dg d 5 == 0 then .link [litT "t *x"] dest title [] ch else .image [litT "al", .emph false [litT "t"]] dest title [] ch
     { blocks := [pa [litT "a", x, litT "b"]] }⟩,
   -- F10: reference links: style x label variants at use and definition x definition spelling x position
-  ⟨[3, 6, 6, 2, 4, 2, 2, 2], fun d =>
+  ⟨[3, 9, 9, 2, 4, 2, 2, 2], fun d =>
     let style : LinkStyle := [LinkStyle.full, .collapsed, .shortcut].getD (dg d 0) .full
     let label := sb "Foo bar 1"
     let title : Option Bytes := if dg d 4 == 0 then none else some (sb "T 'q' \"x\" (y)")
